@@ -315,6 +315,30 @@ fn deep_paths(cfg: &Cfg, rep: &mut Report) {
             }
         }
     }
+    // sorted-pair form: a comb (every level pairs the running node with one fresh leaf) has honest
+    // proofs of any length - the depth limit of the positional form does not apply here
+    for keccak in [false, true] {
+        let f = if keccak { "verify_keccak" } else { "verify_sha" };
+        for len in [31usize, 32, 33, 40] {
+            let sib: Vec<H32> = (0..len).map(|_| rng.bytes()).collect();
+            let leaf: H32 = rng.bytes();
+            let mut node = leaf;
+            for s in &sib {
+                node = if node <= *s { hash(keccak, &node, s) } else { hash(keccak, s, &node) };
+            }
+            let call = |proof: &[H32], root: &H32, lf: &H32| -> Result<bool, Fail> { invoke(e, &c, f, args!(e, to_vec(e, proof), BytesN::from_array(e, root), BytesN::from_array(e, lf))) };
+            let got = call(&sib, &node, &leaf);
+            rep.evaluations += 3;
+            rep.case(format!("deep/{f}/len={len}/{}", match &got { Ok(b) => b.to_string(), Err(x) => x.tag() }));
+            rep.check("honest", got == Ok(true), &format!("C17/honest/{f}/honest-proof-rejected/comb-of-depth-{len}"), || format!("honest sorted-pair proof of {len} elements -> {got:?}"));
+            let g = call(&sib[..len - 1], &node, &leaf);
+            rep.check("corrupt", g != Ok(true), &format!("C17/corrupt/{f}/accepted/proof-drop-last"), || format!("comb of depth {len}: truncated proof accepted"));
+            let mut lf = leaf;
+            lf[3] ^= 4;
+            let g = call(&sib, &node, &lf);
+            rep.check("corrupt", g != Ok(true), &format!("C17/corrupt/{f}/accepted/leaf-bit"), || format!("comb of depth {len}: altered leaf accepted"));
+        }
+    }
     rep.end_history();
 }
 
@@ -345,7 +369,8 @@ fn distributor(cfg: &Cfg, rep: &mut Report, h: u64, variant: u32) {
     };
     let n = 2 + rng.idx(14);
     // indices start at 0, somewhere in the middle, or end at u32::MAX
-    let bases: [u32; 5] = [0, 0, 0, 1000, u32::MAX - 19];
+    // (0, 128 and 256 make indices that agree modulo 128 / 256 meet in one history: packed flags)
+    let bases: [u32; 7] = [0, 0, 128, 256, 384, 1000, u32::MAX - 19];
     // (in the positional form the index is the leaf's position, so those trees start at 0)
     let b0 = if positional { 0 } else { *rng.pick(&bases) };
     let (mut root, mut proofs, mut recs) = mk_tree(&mut rng, n, b0);
@@ -488,7 +513,7 @@ fn distributor(cfg: &Cfg, rep: &mut Report, h: u64, variant: u32) {
 }
 
 pub fn run(cfg: &Cfg, rep: &mut Report) {
-    rep.rule = "(a) for both hashers and both forms (sorted-pair, positional with index), every tree size 1..=65 (thorough 400) with fresh random leaves (split over shards): every leaf (beyond 40 leaves: first, last and a sample) with its honest proof from an independent tree builder, and every single corruption: one bit in each proof element, adjacent swap, first/last dropped, last duplicated, element appended, other leaf, random leaf, leaf bit, random root, root bit, every other index < 2^len (sampled beyond 64), index = 2^len and u32::MAX; single-path positional proofs of depth 30, 31 and 32; (b) distributor histories on a wrapper (Keccak sorted, Keccak indexed, Sha256 indexed) and the airdrop example: valid claims (a sixth of the leaves allocate 0), repeats, proofs of other indices, wrong / zero / negative amount, wrong receiver / index, empty proof, root changes (claims proved against the previous root are retried), ledger jumps, under-funded airdrops (a valid proof whose payout fails). Sorted-pair trees are also built with two equal adjacent leaves and with odd nodes paired with themselves (a sibling equal to the running node). Distinct case = (hasher, form, tree-size class, leaf position, corruption kind, outcome).".into();
+    rep.rule = "(a) for both hashers and both forms (sorted-pair, positional with index), every tree size 1..=65 (thorough 400) with fresh random leaves (split over shards): every leaf (beyond 40 leaves: first, last and a sample) with its honest proof from an independent tree builder, and every single corruption: one bit in each proof element, adjacent swap, first/last dropped, last duplicated, element appended, other leaf, random leaf, leaf bit, random root, root bit, every other index < 2^len (sampled beyond 64), index = 2^len and u32::MAX; single-path positional proofs of depth 30, 31 and 32, sorted-pair combs of depth 31-40; (b) distributor histories on a wrapper (Keccak sorted, Keccak indexed, Sha256 indexed) and the airdrop example: valid claims (a sixth of the leaves allocate 0), repeats, proofs of other indices, wrong / zero / negative amount, wrong receiver / index, empty proof, root changes (claims proved against the previous root are retried), ledger jumps, under-funded airdrops (a valid proof whose payout fails). Sorted-pair trees are also built with two equal adjacent leaves and with odd nodes paired with themselves (a sibling equal to the running node). Distinct case = (hasher, form, tree-size class, leaf position, corruption kind, outcome).".into();
     verifier_sweep(cfg, rep);
     deep_paths(cfg, rep);
     let nh = cfg.pick(30u64, 1500);
